@@ -431,16 +431,19 @@ def special_cases():
                     provs.append(mkprov(nid, l, [])); nid += 1
                 cs.append((mkset(0, [], provs), [], tail[0]))
     # diamond lattice depth d (2^d paths)
-    for d in (6, 20):
-        provs = [mkprov(1, 0, [])]
+    # (the deep ones, in both numberings: the cycle check takes its roots in the order of the type names, so whether
+    # the top or the bottom of the lattice is searched first depends on the numbering)
+    for d, flip in ((6, False), (20, False), (44, False), (44, True)):
+        top = 2 * (2 * d + 1)
+        ty = (lambda t: top - t) if flip else (lambda t: t)
+        provs = [mkprov(1, ty(0), [])]
         for i in range(1, d + 1):
             # level i has two nodes a_i=2*(2i-1), b_i=2*(2i); each needs both nodes of level i-1
             prev = [0] if i == 1 else [2 * (2 * (i - 1) - 1), 2 * (2 * (i - 1))]
-            provs.append(mkprov(2 * i, 2 * (2 * i - 1), prev))
-            provs.append(mkprov(2 * i + 1, 2 * (2 * i), prev))
-        top = 2 * (2 * d + 1)
-        provs.append(mkprov(999, top, [2 * (2 * d - 1), 2 * (2 * d)]))
-        cs.append((mkset(0, [], provs), [], top))
+            provs.append(mkprov(2 * i, ty(2 * (2 * i - 1)), [ty(x) for x in prev]))
+            provs.append(mkprov(2 * i + 1, ty(2 * (2 * i)), [ty(x) for x in prev]))
+        provs.append(mkprov(999, ty(top), [ty(2 * (2 * d - 1)), ty(2 * (2 * d))]))
+        cs.append((mkset(0, [], provs), [], ty(top)))
     # chain of depth 60
     provs = [mkprov(i + 1, 2 * i, [2 * (i + 1)]) for i in range(60)] + [mkprov(99, 120, [])]
     cs.append((mkset(0, [], provs), [], 0))
